@@ -25,15 +25,19 @@ def handler(c):
             return ['ok', first]
         if k == 'sched':
             w = c['which']
+            # 'naive': the same instants handed over without a time zone (the schedules stamp UTC themselves)
+            tsx = (lambda x: ts(x).tz_localize(None)) if c.get('naive') else ts
             if w == 'weekly':
-                r = WeeklyRebalance(ts(c['start']), ts(c['stop']), c['weekday'], pre_market=c['pm'])
+                r = WeeklyRebalance(tsx(c['start']), tsx(c['stop']), c['weekday'], pre_market=c['pm'])
             elif w == 'daily':
-                r = DailyRebalance(ts(c['start']), ts(c['stop']), pre_market=c['pm'])
+                r = DailyRebalance(tsx(c['start']), tsx(c['stop']), pre_market=c['pm'])
             elif w == 'end_of_month':
-                r = EndOfMonthRebalance(ts(c['start']), ts(c['stop']), pre_market=c['pm'])
+                r = EndOfMonthRebalance(tsx(c['start']), tsx(c['stop']), pre_market=c['pm'])
             else:
-                r = BuyAndHoldRebalance(ts(c['start']))
+                r = BuyAndHoldRebalance(tsx(c['start']))
             out = ['ok', [sec(x) for x in r.rebalances]]
+            if w != 'buy_and_hold' and any(x.tzinfo is None or x.utcoffset().total_seconds() != 0 for x in r.rebalances):
+                out[1] = [['not-utc', str(x)] for x in r.rebalances][:3]
             if c.get('with_clock') and c['stop'] >= c['start']:
                 eng = DailyBusinessDaySimulationEngine(ts(c['start']), ts(c['stop']), pre_market=False, post_market=False)
                 out.append([[sec(e.ts), e.event_type] for e in eng])
